@@ -17,6 +17,9 @@ use vstd::std_specs::cmp::OrdSpec;
 //@map /Map<PaymentHash, u64>/ => VxPayMap
 //@map /&\*state\b/ => &state
 //@map /&dyn Wallet/ => &VxNode
+//@map /\bRevocationKey\b/ => VxKeyWrap
+//@map /\bDelayedPaymentKey\b/ => VxKeyWrap
+//@map /chan_utils::get_revokeable_redeemscript/ => vx_get_revokeable_redeemscript
 verus! {
 
 //@@TAGS
@@ -25,6 +28,7 @@ verus! {
 //@include frag/channel_types.rs
 //@include frag/channel_spec.rs
 //@include frag/channel_trusted.rs
+//@include frag/channel_recovery_trusted.rs
 
 impl Channel {
 
@@ -233,6 +237,42 @@ impl Channel {
         r.is_err() ==> final(self).enforcement_state == old(self).enforcement_state
             && final(self).persisted == old(self).persisted,                                          //[C10.sign-holder.err-frame]
         r.is_ok() ==> final(self).persisted@ == final(self).enforcement_state,                        //[C11.sign-holder.persisted]
+//@end
+
+//@fn vls-core/src/channel.rs :: impl Channel :: sign_holder_commitment_tx_phase2_redundant props=C02,C10,C11
+    requires
+        commitment_number <= INITIAL_COMMITMENT_NUMBER, chan_wf(*old(self)), hc_inv(*old(self)),
+        htlcs_msat_fit(offered_htlcs@), htlcs_msat_fit(received_htlcs@),
+    ensures
+        chan_static_eq(*final(self), *old(self)), hc_inv(*final(self)),
+        // C02: never a signature on an already revoked holder commitment ...
+        r.is_ok() && vx_strict(T_policy_commitment_holder_not_revoked) ==>
+            commitment_number + 2 > old(self).enforcement_state.next_holder_commit_num,                 //[C02.sign-redundant.not-revoked]
+        // ... and releasing one closes the channel, so nothing is revoked afterwards ([C02.revoke.closed])
+        r.is_ok() ==> final(self).enforcement_state == (EnforcementState { channel_closed: true, ..old(self).enforcement_state }),   //[C02.sign-redundant.marks-closed]
+        r.is_err() ==> final(self).enforcement_state == old(self).enforcement_state
+            && final(self).persisted == old(self).persisted,                                          //[C10.sign-redundant.err-frame]
+        r.is_ok() ==> final(self).persisted@ == final(self).enforcement_state,                        //[C11.sign-redundant.persisted]
+//@end
+
+//@fn vls-core/src/channel.rs :: impl Channel :: sign_holder_commitment_tx_for_recovery props=C02,C10,C11
+    requires
+        chan_wf(*old(self)), hc_inv(*old(self)),
+        old(self).enforcement_state.current_holder_commit_info.is_some() ==>
+            htlcs_msat_fit(old(self).enforcement_state.current_holder_commit_info->Some_0.offered_htlcs@)
+            && htlcs_msat_fit(old(self).enforcement_state.current_holder_commit_info->Some_0.received_htlcs@),
+        // a channel with recorded holder commitment info has validated at least commitment 0 (representation invariant)
+        old(self).enforcement_state.current_holder_commit_info.is_some() ==> old(self).enforcement_state.next_holder_commit_num >= 1,
+    ensures
+        chan_static_eq(*final(self), *old(self)), hc_inv(*final(self)),
+        // C02: recovery signs the current holder commitment (next - 1), from the stored info, and closes the channel
+        r.is_ok() ==> old(self).enforcement_state.current_holder_commit_info.is_some()
+            && old(self).enforcement_state.current_counterparty_signatures.is_some(),                  //[C02.sign-recovery.only-open-channel]
+        r.is_ok() ==> final(self).enforcement_state == (EnforcementState { channel_closed: true, ..old(self).enforcement_state }),   //[C02.sign-recovery.marks-closed]
+        r.is_err() ==> final(self).enforcement_state == old(self).enforcement_state
+            && final(self).persisted == old(self).persisted,                                          //[C10.sign-recovery.err-frame]
+        r.is_ok() ==> final(self).persisted@ == final(self).enforcement_state,                        //[C11.sign-recovery.persisted]
+//@sub /let mut tx = holder_tx\.built_transaction\(\)\.transaction\.clone\(\);/ => let mut tx = holder_tx.built_transaction().transaction.clone(); let holder_tx_keys_vx = holder_tx.keys();
 //@end
 
 } // impl Channel
